@@ -5,7 +5,7 @@ package configuration
 // directly; this run enumerates every way a user can state the option and loads it the way fan2go does at start-up
 // (viper.Reset, InitConfig, readInConfig, LoadConfig): configuration file {absent, true, false} x spelling of the key x
 // position in the file x environment variable {unset, false, true, 0, 1} x previous load in the same process
-// {none, the opposite value}. Oracle (from the documented precedence environment > file > default true):
+// {none, the opposite value}, and the option next to boundary values of every other top-level setting. Oracle (from the documented precedence environment > file > default true):
 // CurrentConfig.RunFanInitializationInParallel after loading.
 
 import (
@@ -13,6 +13,7 @@ import (
 	"os"
 	"path/filepath"
 	"strconv"
+	"strings"
 	"testing"
 
 	"github.com/markusressel/fan2go/internal/verifshim/mc"
@@ -26,6 +27,7 @@ type vxC16OptCase struct {
 	Last     bool   `json:"last"`     // key is the last entry of the file instead of the first
 	Env      string `json:"env"`      // "" (unset) or the value of RUNFANINITIALIZATIONINPARALLEL
 	Previous string `json:"previous"` // "" or the value of the option in a configuration loaded before in the same process
+	Others   string `json:"others"`   // other top-level settings stated in the same file ("" or YAML lines)
 }
 
 func (c vxC16OptCase) String() string {
@@ -45,13 +47,17 @@ func (c vxC16OptCase) String() string {
 	if c.Previous != "" {
 		p = ", after a configuration with the value " + c.Previous + " was loaded in the same process"
 	}
-	return f + ", " + e + p
+	o := ""
+	if c.Others != "" {
+		o = ", next to " + strings.ReplaceAll(strings.TrimSpace(c.Others), "\n", "; ")
+	}
+	return f + ", " + e + p + o
 }
 
 const vxC16EnvName = "RUNFANINITIALIZATIONINPARALLEL"
 
-func vxC16OptYaml(dir, key, val string, last bool) string {
-	body := "dbPath: " + filepath.Join(dir, "fan2go.db") + "\n" +
+func vxC16OptYaml(dir, key, val string, last bool, others string) string {
+	body := others + "dbPath: " + filepath.Join(dir, "fan2go.db") + "\n" +
 		"sensors:\n  - id: s1\n    file:\n      path: " + filepath.Join(dir, "temp_input") + "\n" +
 		"curves:\n  - id: c1\n    linear:\n      sensor: s1\n      min: 40\n      max: 80\n" +
 		"fans:\n  - id: f1\n    curve: c1\n    file:\n      path: " + filepath.Join(dir, "pwm") + "\n"
@@ -88,7 +94,7 @@ func vxC16OptRun(rep *mc.Report, dir string, c vxC16OptCase) {
 	os.Unsetenv(vxC16EnvName)
 	if c.Previous != "" {
 		prev := filepath.Join(dir, "previous.yaml")
-		if err := os.WriteFile(prev, []byte(vxC16OptYaml(dir, "runFanInitializationInParallel", c.Previous, false)), 0o644); err != nil {
+		if err := os.WriteFile(prev, []byte(vxC16OptYaml(dir, "runFanInitializationInParallel", c.Previous, false, "")), 0o644); err != nil {
 			rep.HarnessError(err.Error())
 			return
 		}
@@ -97,7 +103,7 @@ func vxC16OptRun(rep *mc.Report, dir string, c vxC16OptCase) {
 			return
 		}
 	}
-	if err := os.WriteFile(path, []byte(vxC16OptYaml(dir, c.Key, c.File, c.Last)), 0o644); err != nil {
+	if err := os.WriteFile(path, []byte(vxC16OptYaml(dir, c.Key, c.File, c.Last, c.Others)), 0o644); err != nil {
 		rep.HarnessError(err.Error())
 		return
 	}
@@ -117,7 +123,7 @@ func vxC16OptRun(rep *mc.Report, dir string, c vxC16OptCase) {
 		src = "environment"
 	}
 	rep.Count(fmt.Sprintf("option decided by the %s: %v", src, want), 1)
-	rep.Outcome(fmt.Sprintf("%s/%v/%v/%s/%v/%s", src, want, got, c.Key, c.Last, c.Previous))
+	rep.Outcome(fmt.Sprintf("%s/%v/%v/%s/%v/%s/%s", src, want, got, c.Key, c.Last, c.Previous, c.Others))
 	if fail != "" {
 		rep.Violate(mc.Violation{Signature: "C16 option: configuration stating runFanInitializationInParallel cannot be loaded", Detail: c.String() + ": " + fail, Replay: c})
 		return
@@ -137,7 +143,7 @@ func TestVX_C16option(t *testing.T) {
 	defer sc.Close()
 	var rc vxC16OptCase
 	if mc.ReplayCase(&rc) {
-		if rc.Key == "" && rc.File == "" && rc.Env == "" && rc.Previous == "" {
+		if rc.Key == "" && rc.File == "" && rc.Env == "" && rc.Previous == "" && rc.Others == "" {
 			return
 		}
 		vxC16OptRun(rep, sc.Dir, rc)
@@ -152,6 +158,22 @@ func TestVX_C16option(t *testing.T) {
 					for _, last := range []bool{false, true} {
 						cases = append(cases, vxC16OptCase{File: file, Key: key, Last: last, Env: env, Previous: prev})
 					}
+				}
+			}
+		}
+	}
+	// the option next to boundary values of every other top-level setting: it must not depend on them
+	for _, others := range []string{"fanResponseDelay: 0\n", "fanResponseDelay: -1\n", "maxRpmDiffForSettledFan: 0\n", "maxRpmDiffForSettledFan: -5\n",
+		"fanResponseDelay: 0\nmaxRpmDiffForSettledFan: 0\n", "tempRollingWindowSize: 1\nrpmRollingWindowSize: 1\n", "tempRollingWindowSize: 0\nrpmRollingWindowSize: 0\n",
+		"controllerAdjustmentTickRate: 0\n", "rpmPollingRate: 0\ntempSensorPollingRate: 0\n", "controllerAdjustmentTickRate: 50ms\nrpmPollingRate: 10s\ntempSensorPollingRate: 1ms\n",
+		"statistics:\n  enabled: true\n  port: 0\n", "api:\n  enabled: true\n  host: \"\"\n  port: 0\n", "profiling:\n  enabled: false\n"} {
+		for _, env := range []string{"", "false", "true"} {
+			for _, file := range []string{"", "true", "false"} {
+				for _, last := range []bool{false, true} {
+					if file == "" && last {
+						continue
+					}
+					cases = append(cases, vxC16OptCase{File: file, Key: "runFanInitializationInParallel", Last: last, Env: env, Others: others})
 				}
 			}
 		}
